@@ -101,11 +101,34 @@ shadow point_label { assert (== (point_label Point { x: 1, y: 1 }) "%(s1)s:2") }
 """
 
 
+MM_FFI = """/* thin FFI module: binds C library functions and wraps them */
+extern fn labs(x: int) -> int
+extern fn atol(s: string) -> int
+
+pub fn magnitude(x: int) -> int {
+    let mut r: int = 0
+    unsafe {
+        set r (labs x)
+    }
+    return r
+}
+
+pub fn parse_int(s: string) -> int {
+    let mut r: int = 0
+    unsafe {
+        set r (atol s)
+    }
+    return (+ r %(k3)d)
+}
+"""
+
+
 def _multi_module_programs(rng, n):
     """Hand-written multi-module programs (import of sibling files, `from .. import`, `module .. as`, transitive
     imports, a sub-directory, a diamond).  Constants come from rng so different seeds see different bytes."""
     out = []
-    shapes = ["flat", "types", "chain", "diamond", "subdir", "many", "alias"]
+    shapes = ["flat", "ffi-direct", "ffi-transitive", "types", "chain", "ffi-subdir", "diamond", "subdir", "ffi-alias", "many",
+              "alias"]
     for i in range(n):
         shape = shapes[i % len(shapes)]
         v = dict(k1=rng.randrange(2, 90), k2=rng.randrange(100, 999), k3=rng.randrange(3, 50),
@@ -127,6 +150,92 @@ fn main() -> int {
     return 0
 }
 shadow main { assert (== (main) 0) }
+""" % v
+        elif shape.startswith("ffi-"):
+            # an imported module that declares `extern fn`s (libc): the .nvm import table names the module each extern
+            # came from, so the spelling of that name must not depend on cwd / the spelling of the input path
+            ffi = MM_FFI % v
+            if shape == "ffi-direct":
+                files["cmath.nano"] = ffi
+                files["main.nano"] = """import "cmath.nano"
+extern fn llabs(x: int) -> int
+
+fn own_abs(x: int) -> int {
+    let mut r: int = 0
+    unsafe {
+        set r (llabs x)
+    }
+    return r
+}
+
+fn main() -> int {
+    (println (magnitude (- 3 %(k2)d)))
+    (println (parse_int "%(k3)d"))
+    (println (own_abs (- 0 %(k1)d)))
+    unsafe {
+        (println (labs (- 0 %(k3)d)))
+    }
+    (println "%(s1)s")
+    return 0
+}
+""" % v
+            elif shape == "ffi-alias":
+                files["cmath.nano"] = ffi
+                files["main.nano"] = """import "cmath.nano" as cm
+
+fn distance(a: int, b: int) -> int {
+    return (cm.magnitude (- a b))
+}
+
+fn main() -> int {
+    (println (distance %(k1)d %(k2)d))
+    (println (cm.parse_int "%(k3)d"))
+    return 0
+}
+""" % v
+            elif shape == "ffi-transitive":
+                files["cmath.nano"] = ffi
+                files["mid.nano"] = """import "cmath.nano"
+pub fn dist(a: int, b: int) -> int {
+    return (magnitude (- a b))
+}
+pub fn number(s: string) -> int {
+    return (+ (parse_int s) %(k1)d)
+}
+""" % v
+                files["main.nano"] = """import "mid.nano"
+
+fn main() -> int {
+    (println (dist %(k1)d %(k2)d))
+    (println (number "%(k3)d"))
+    (println "%(s1)s")
+    return 0
+}
+""" % v
+            else:  # ffi-subdir: FFI module in a sub-directory, imported directly and (a second one) transitively
+                files["lib/cmath.nano"] = ffi
+                files["lib/cstr.nano"] = """extern fn strlen(s: string) -> int
+pub fn c_length(s: string) -> int {
+    let mut r: int = 0
+    unsafe {
+        set r (strlen s)
+    }
+    return r
+}
+"""
+                files["lib/text.nano"] = """import "cstr.nano"
+pub fn width(s: string) -> int {
+    return (+ (c_length s) %(k1)d)
+}
+""" % v
+                files["main.nano"] = """import "lib/cmath.nano"
+import "lib/text.nano"
+
+fn main() -> int {
+    (println (magnitude (- %(k1)d %(k2)d)))
+    (println (width "%(s1)s"))
+    return 0
+}
 """ % v
         elif shape == "types":
             # several struct / enum / union definitions in the main file and in a module: the order of type tables matters
@@ -434,16 +543,25 @@ def _repo_programs(rng, limit):
     return out
 
 
-def _witness_program():
-    """The committed witness of the known finding (findings/C19/modpath) is always part of the workload."""
-    files = {}
-    if os.path.isdir(WITNESS_DIR):
-        for f in sorted(os.listdir(WITNESS_DIR)):
-            if f.endswith(".nano"):
-                files[f] = open(os.path.join(WITNESS_DIR, f), "rb").read()
-    if "main.nano" not in files:
-        return None
-    return Prog("multi", "findings/C19/modpath", files, "main.nano", note="witness")
+def _witness_programs():
+    """The committed witnesses of the known findings (findings/C19/<name>/main.nano + siblings) are always part of the
+    workload."""
+    out = []
+    base = os.path.dirname(WITNESS_DIR)
+    if not os.path.isdir(base):
+        return out
+    for d in sorted(os.listdir(base)):
+        wd = os.path.join(base, d)
+        if not os.path.isfile(os.path.join(wd, "main.nano")):
+            continue
+        files = {}
+        for dp, dn, fn in os.walk(wd):
+            for f in sorted(fn):
+                if f.endswith(".nano"):
+                    full = os.path.join(dp, f)
+                    files[os.path.relpath(full, wd)] = open(full, "rb").read()
+        out.append(Prog("multi", "findings/C19/" + d, files, "main.nano", note="witness"))
+    return out
 
 
 # ------------------------------------------------------------------------------------------------------------
@@ -732,7 +850,63 @@ def _nvm_region(data, off):
         return "body"
 
 
-def classify_nvm_diff(a, b):
+def _nvm_parse(data):
+    """(sections {type: bytes}, order [(type, size)], strings [bytes], import module-name indices) of an .nvm file."""
+    n = int.from_bytes(data[16:20], "little")
+    if n > 64 or 32 + 12 * n > len(data):
+        raise ValueError("bad directory")
+    secs, order = {}, []
+    for i in range(n):
+        e = data[32 + 12 * i: 44 + 12 * i]
+        typ, off, sz = (int.from_bytes(e[k:k + 4], "little") for k in (0, 4, 8))
+        if off + sz > len(data) or typ in secs:
+            raise ValueError("bad section")
+        secs[typ] = data[off:off + sz]
+        order.append((typ, sz))
+    strings = []
+    sp = secs.get(2, b"")
+    pos = 0
+    while pos + 4 <= len(sp):
+        ln = int.from_bytes(sp[pos:pos + 4], "little")
+        pos += 4
+        if pos + ln > len(sp):
+            raise ValueError("bad string pool")
+        strings.append(sp[pos:pos + ln])
+        pos += ln
+    mod_idx = set()
+    imp = secs.get(8, b"")
+    pos = 0
+    while pos + 11 <= len(imp):
+        mod_idx.add(int.from_bytes(imp[pos:pos + 4], "little"))
+        pc = int.from_bytes(imp[pos + 8:pos + 10], "little")
+        pos += 11 + pc
+    return secs, order, strings, mod_idx
+
+
+def classify_nvm_diff(a, b, same_file=None, is_direct=None):
+    """a, b: bytes of two .nvm files.  When the ONLY difference is the spelling of the module name of import-table entries
+    (string pool entries referenced as module_name_idx) and both spellings denote the same module file of the program
+    (same_file), the cause is 'extern-module-path-embedded' (+ whether main imports that module directly).  Anything else is
+    named after the part of the file that holds the first differing byte."""
+    if same_file is not None:
+        try:
+            sa, oa, stra, ma = _nvm_parse(a)
+            sb, ob, strb, mb = _nvm_parse(b)
+            same_rest = (a[4:20] == b[4:20] and [t for t, _ in oa] == [t for t, _ in ob] and ma == mb and
+                         all(sa[t] == sb[t] for t in sa if t != 2) and len(stra) == len(strb))
+            if same_rest:
+                diff_idx = [i for i in range(len(stra)) if stra[i] != strb[i]]
+                if diff_idx and all(i in ma for i in diff_idx):
+                    pairs = [(stra[i].decode("utf-8", "replace"), strb[i].decode("utf-8", "replace")) for i in diff_idx]
+                    if all(same_file(x, y) for x, y in pairs):
+                        direct = [bool(is_direct and is_direct(x)) for x, _ in pairs]
+                        how = "direct-import" if all(direct) else "transitive-import" if not any(direct) else "direct+transitive-import"
+                        return ("extern-module-path-embedded|" + how,
+                                "the files differ only in %d string pool entr%s used as the module name of import-table entries "
+                                "(extern fns of an imported module): %s" % (len(pairs), "y" if len(pairs) == 1 else "ies",
+                                                                          "; ".join("%r vs %r" % p for p in pairs[:3])))
+        except Exception:
+            pass
     if len(a) != len(b):
         return "size", "sizes differ: %d vs %d bytes" % (len(a), len(b))
     diffs = [i for i in range(len(a)) if a[i] != b[i]]
@@ -822,13 +996,11 @@ def run(ctx):
 
         # ---- programs ------------------------------------------------------------------------------------
         rng = ctx.rng("programs")
-        n_total = ctx.n(70, 600)
-        n_multi = ctx.n(8, 36)
+        n_total = ctx.n(74, 600)
+        n_multi = ctx.n(11, 44)         # >= one of every shape in the quick tier
         n_ill = ctx.n(21, 180)          # >= one of every BREAK_KINDS entry in the quick tier
         progs = []
-        w = _witness_program()
-        if w:
-            progs.append(w)
+        progs.extend(_witness_programs())
         progs.extend(_multi_module_programs(rng, n_multi))
         for item in extra_sources(ctx, sc):
             if isinstance(item, tuple):
@@ -925,6 +1097,17 @@ def run(ctx):
                 return fa == fb and fa.startswith(prog.src + "/") and os.path.isfile(fa)
             return same
 
+        def is_direct_fn(prog, cwd_a):
+            """is the module file spelled `path` (relative to cwd_a) imported by the main file itself?"""
+            direct = set()
+            for m in SIBLING_IMPORT.finditer(prog.files[prog.main]):
+                rel = m.group(1).decode("utf-8", "replace")
+                direct.add(os.path.normpath(os.path.join(prog.src, os.path.dirname(prog.main), rel)))
+
+            def is_direct(path):
+                return os.path.normpath(os.path.join(cwd_a, path)) in direct
+            return is_direct
+
         def cwd_of(prog, cfg):
             return {"c": os.path.join(prog.root, "c"), "deep": prog.deep, "src": prog.src}[cfg.cwd]
 
@@ -995,8 +1178,11 @@ def run(ctx):
                             ctx.violation(key, "%s (%s): generated C differs between baseline and configuration '%s': %s"
                                           % (prog.name, prog.kind, cfg.name, desc), f)
                         else:
-                            where, desc = classify_nvm_diff(base.artifact, o.artifact)
-                            ctx.violation("nvm|%s|%s" % (where, cfg.name),
+                            where, desc = classify_nvm_diff(base.artifact, o.artifact,
+                                                            same_file_fn(prog, cwd_of(prog, by_name["baseline"]), cwd_of(prog, cfg)),
+                                                            is_direct_fn(prog, cwd_of(prog, by_name["baseline"])))
+                            key = "nvm|" + where if where.startswith("extern-module-path-embedded|") else "nvm|%s|%s" % (where, cfg.name)
+                            ctx.violation(key,
                                           "%s (%s): .nvm differs between baseline and configuration '%s': %s"
                                           % (prog.name, prog.kind, cfg.name, desc), f)
                     # diagnostics: only meaningful when neither run was killed by a signal (buffered stdout is lost)
@@ -1054,9 +1240,13 @@ def run(ctx):
                             suffix, desc = classify_genc_diff(base.artifact, o.artifact,
                                                               same_file_fn(prog, cwd_of(prog, by_name["baseline"]), cwd_of(prog, vcfg)))
                         else:
-                            suffix, desc = classify_nvm_diff(base.artifact, o.artifact)
+                            suffix, desc = classify_nvm_diff(base.artifact, o.artifact,
+                                                             same_file_fn(prog, cwd_of(prog, by_name["baseline"]), cwd_of(prog, vcfg)),
+                                                             is_direct_fn(prog, cwd_of(prog, by_name["baseline"])))
                     if tool == "genC" and suffix == "module-path-embedded":
                         key = "genC|module-path-embedded"
+                    elif tool == "nvm" and suffix.startswith("extern-module-path-embedded|"):
+                        key = "nvm|" + suffix
                     else:
                         key = "%s|under-memcheck|%s|%s" % (tool, suffix, kinds_seen)
                     ctx.violation(key, "%s (%s): %s output under valgrind (configuration '%s', malloc-fill 0xA5) differs from the "
